@@ -45,8 +45,10 @@ def mc_formulas(pid):
 
 
 def sim_shard(args):
+    """behaviours of the model replayed on the real code: the committed corpus (regress/model: behaviours that together cover
+    every abstract step signature of the model several times) plus freshly simulated ones"""
     workdir, name, num, depth, seed = args
-    behs = hq_model.behaviours(name, num, depth, seed, workdir)
+    behs = hq_model.corpus_behaviours(name) + hq_model.behaviours(name, num, depth, seed, workdir)
     return hq_model.guided_shard(workdir, name, behs)
 
 
